@@ -564,4 +564,181 @@ theorem runEntries_eq_refRun {infos s H latest} (rep : Rep infos s H latest) (h0
     exact ⟨by rw [ih1], l', le_trans h1 hl', ih2⟩
 
 
+/-! ## facts about the reference alone -/
+
+theorem Thr.exceeds_mono (T : Thr) {N N' : Nat} (h : N ≤ N') (he : T.exceeds N = true) : T.exceeds N' = true := by
+  cases T with
+  | unbounded => simp [Thr.exceeds] at he
+  | invalid => simp [Thr.exceeds] at he
+  | frac num den =>
+    simp only [Thr.exceeds, decide_eq_true_eq] at he ⊢
+    exact lt_of_lt_of_le he (Nat.mul_le_mul_right _ h)
+
+theorem Thr.not_exceeds_zero (T : Thr) : T.exceeds 0 = false := by
+  cases T <;> simp [Thr.exceeds]
+
+theorem refCheck_congr (f g : RuleInfo → Nat) (cs : List RuleInfo) (H : List Arrival) (res now b : Nat)
+    (h : ∀ c ∈ cs, c.rule.res = res → f c = g c) : refCheck f cs H res now b = refCheck g cs H res now b := by
+  induction cs with
+  | nil => rfl
+  | cons c r ih =>
+    simp only [refCheck]
+    have ihr := ih (fun c hc => h c (List.mem_cons_of_mem _ hc))
+    by_cases hr : c.rule.res = res
+    · rw [h c (List.mem_cons_self ..) hr, ihr]
+    · simp only [hr, false_and, if_false]; exact ihr
+
+theorem refRun_congr (f g : RuleInfo → Nat) (cs : List RuleInfo) (H : List Arrival) (as : List Arrival)
+    (h : ∀ c ∈ cs, f c = g c) : refRun f cs H as = refRun g cs H as := by
+  induction as generalizing H with
+  | nil => rfl
+  | cons a r ih =>
+    simp only [refRun]
+    rw [refCheck_congr f g cs H a.res a.t a.b (fun c hc _ => h c hc), ih]
+
+/-- admitted ⇔ every rule of the resource has room for the batch -/
+theorem refCheck_none_iff (f : RuleInfo → Nat) (cs : List RuleInfo) (H : List Arrival) (res now b : Nat) :
+    refCheck f cs H res now b = none ↔
+      ∀ c ∈ cs, c.rule.res = res → c.rule.thr.exceeds (windowTokens H (f c) c.L c.Iv now + b) = false := by
+  induction cs with
+  | nil => simp [refCheck]
+  | cons c r ih =>
+    simp only [refCheck, List.mem_cons, forall_eq_or_imp]
+    by_cases hc : c.rule.res = res ∧ c.rule.thr.exceeds (windowTokens H (f c) c.L c.Iv now + b) = true
+    · rw [if_pos hc]
+      constructor
+      · intro h; cases h
+      · intro h; have := h.1 hc.1; rw [hc.2] at this; cases this
+    · rw [if_neg hc, ih]
+      constructor
+      · intro h
+        refine ⟨fun hr => ?_, h⟩
+        by_contra hx
+        exact hc ⟨hr, by simpa using hx⟩
+      · intro h; exact h.2
+
+/-- a block names a rule of the resource that really has no room: no spurious block -/
+theorem refCheck_some (f : RuleInfo → Nat) (cs : List RuleInfo) (H : List Arrival) (res now b i : Nat)
+    (h : refCheck f cs H res now b = some i) :
+    ∃ c ∈ cs, c.idx = i ∧ c.rule.res = res ∧ c.rule.thr.exceeds (windowTokens H (f c) c.L c.Iv now + b) = true := by
+  induction cs with
+  | nil => simp [refCheck] at h
+  | cons c r ih =>
+    simp only [refCheck] at h
+    split_ifs at h with hc
+    · cases h; exact ⟨c, List.mem_cons_self .., rfl, hc.1, hc.2⟩
+    · obtain ⟨c', hc', h'⟩ := ih h
+      exact ⟨c', List.mem_cons_of_mem _ hc', h'⟩
+
+theorem refW_le_of_imp (L : Nat) (h : List (Nat × Nat)) (lo hi lo' hi' : Nat)
+    (himp : ∀ e ∈ h, (lo ≤ cbs L e.1 ∧ cbs L e.1 ≤ hi) → (lo' ≤ cbs L e.1 ∧ cbs L e.1 ≤ hi')) :
+    refW L h lo hi ≤ refW L h lo' hi' := by
+  unfold refW
+  induction h with
+  | nil => simp
+  | cons e r ih =>
+    simp only [List.map_cons, List.sum_cons]
+    have := ih (fun e he => himp e (List.mem_cons_of_mem _ he))
+    have h1 := himp e (List.mem_cons_self ..)
+    by_cases hc : lo ≤ cbs L e.1 ∧ cbs L e.1 ≤ hi
+    · simp only [hc, h1 hc, and_self, if_true]; omega
+    · simp only [hc, if_false]; split_ifs <;> omega
+
+theorem histOf_time_le (H : List Arrival) (latest r : Nat) (h : ∀ a ∈ H, a.t ≤ latest) :
+    ∀ e ∈ histOf H r, e.1 ≤ latest := by
+  intro e he
+  unfold histOf at he
+  simp only [List.mem_map, List.mem_filter] at he
+  obtain ⟨a, ⟨ha, _⟩, rfl⟩ := he
+  exact h a ha
+
+/-- the cap invariant of a history: nothing is newer than `latest`, and every rule that counts its own
+    resource has at most `T` tokens in every window of its geometry -/
+structure Capped (f : RuleInfo → Nat) (cs : List RuleInfo) (H : List Arrival) (latest : Nat) : Prop where
+  le : ∀ a ∈ H, a.t ≤ latest
+  cap : ∀ c ∈ cs, f c = c.rule.res → ∀ e, c.rule.thr.exceeds (refW c.L (histOf H c.rule.res) (e + c.L - c.Iv) e) = false
+
+theorem Capped.nil (f : RuleInfo → Nat) (cs : List RuleInfo) (latest : Nat) : Capped f cs [] latest :=
+  ⟨by simp, fun c _ _ e => by simp [histOf, refW, Thr.not_exceeds_zero]⟩
+
+theorem Capped.step {f cs H latest} (cp : Capped f cs H latest) (a : Arrival) (hle : latest ≤ a.t)
+    (hd : refCheck f cs H a.res a.t a.b = none) : Capped f cs (H ++ [a]) a.t := by
+  refine ⟨?_, ?_⟩
+  · intro x hx
+    rcases List.mem_append.mp hx with h | h
+    · exact le_trans (cp.le x h) hle
+    · simp at h; subst h; exact le_refl _
+  · intro c hc hf e
+    rw [histOf_append]
+    by_cases hr : a.res = c.rule.res
+    · simp only [hr, if_true]
+      rw [refW_append]
+      have hroom := (refCheck_none_iff f cs H a.res a.t a.b).mp hd c hc hr.symm
+      rw [hf] at hroom
+      unfold windowTokens at hroom
+      by_cases hin : e + c.L - c.Iv ≤ cbs c.L a.t ∧ cbs c.L a.t ≤ e
+      · simp only [hin, and_self, if_true]
+        -- everything recorded so far lies at or before the current bucket
+        have hold : ∀ x ∈ histOf H c.rule.res, cbs c.L x.1 ≤ cbs c.L a.t := fun x hx =>
+          cbs_mono c.L (le_trans (histOf_time_le H latest _ cp.le x hx) hle)
+        have hle' : refW c.L (histOf H c.rule.res) (e + c.L - c.Iv) e ≤
+            refW c.L (histOf H c.rule.res) (cbs c.L a.t + c.L - c.Iv) (cbs c.L a.t) := by
+          apply refW_le_of_imp
+          intro x hx hw
+          have := hold x hx
+          exact ⟨by omega, this⟩
+        cases hx : c.rule.thr.exceeds (refW c.L (histOf H c.rule.res) (e + c.L - c.Iv) e + a.b) with
+        | false => rfl
+        | true =>
+          have := Thr.exceeds_mono c.rule.thr (Nat.add_le_add_right hle' a.b) hx
+          rw [this] at hroom; cases hroom
+      · simp only [hin, if_false, Nat.add_zero]
+        exact cp.cap c hc hf e
+    · simp only [hr, if_false]
+      exact cp.cap c hc hf e
+
+theorem Capped.idle {f cs H latest} (cp : Capped f cs H latest) {now : Nat} (h : latest ≤ now) : Capped f cs H now :=
+  ⟨fun a ha => le_trans (cp.le a ha) h, cp.cap⟩
+
+theorem refRun_capped {f cs H latest} (cp : Capped f cs H latest) (as : List Arrival) (hm : MonoA latest as) :
+    ∃ latest', Capped f cs (refRun f cs H as).1 latest' := by
+  induction as generalizing H latest with
+  | nil => exact ⟨latest, cp⟩
+  | cons a r ih =>
+    obtain ⟨h1, h2⟩ := hm
+    simp only [refRun]
+    cases hd : refCheck f cs H a.res a.t a.b with
+    | none => simpa using ih (cp.step a h1 hd) h2
+    | some i => simpa using ih (cp.idle h1) h2
+
+
+theorem refRun_snoc (f : RuleInfo → Nat) (cs : List RuleInfo) (H : List Arrival) (as : List Arrival) (a : Arrival) :
+    (refRun f cs H (as ++ [a])).2 = (refRun f cs H as).2 ++ [refCheck f cs (refRun f cs H as).1 a.res a.t a.b] := by
+  induction as generalizing H with
+  | nil => simp [refRun]
+  | cons x r ih => simp only [List.cons_append, refRun, ih]
+
+theorem MonoA.weaken {p q : Nat} (h : p ≤ q) {as : List Arrival} (hm : MonoA q as) : MonoA p as := by
+  cases as with
+  | nil => trivial
+  | cons x r => exact ⟨le_trans h hm.1, hm.2⟩
+
+theorem MonoA.prefix {p : Nat} {as bs : List Arrival} (hm : MonoA p (as ++ bs)) : MonoA p as := by
+  induction as generalizing p with
+  | nil => trivial
+  | cons x r ih => exact ⟨hm.1, ih hm.2⟩
+
+/-- the invariant after a run, aged no further than any bound `m` on the arrival times -/
+theorem runEntries_rep_le {infos s H latest} (rep : Rep infos s H latest) (h0 : 0 < latest) (m : Nat) (hlm : latest ≤ m)
+    (as : List Arrival) (hm : MonoA latest as) (hle : ∀ x ∈ as, x.t ≤ m) :
+    ∃ l, l ≤ m ∧ 0 < l ∧ Rep infos (runEntries s as).1 (refRun RuleInfo.feed infos H as).1 l := by
+  induction as generalizing s H latest with
+  | nil => exact ⟨latest, hlm, h0, rep⟩
+  | cons x r ih =>
+    obtain ⟨hd, rep'⟩ := entry_step rep hm.1 (lt_of_lt_of_le h0 hm.1) x.res x.b
+    simp only [runEntries, refRun]
+    rw [hd] at rep'
+    exact ih rep' (lt_of_lt_of_le h0 hm.1) (hle x (List.mem_cons_self ..)) hm.2
+      (fun y hy => hle y (List.mem_cons_of_mem _ hy))
+
 end Sentinel.FlowReject
